@@ -368,7 +368,7 @@ def check_counting_by_filter(res, lib, f, classes):
 
 def check_counting_by_class(res, lib, f, sp):
     closures = [g for g in lib.lib_fns() if g.kind == 'Closure' and g.path.startswith(f.path + '::')]
-    classes = fsm.partition_at(fsm.int_cuts([f] + closures) | spec.boundaries())
+    classes = fsm.partition_at(fsm.int_cuts(fsm.with_callees(lib, [f] + closures)) | spec.boundaries())
     rule = ClassStepRule(f, classes)
     I = Interp([lib], rule)
     args = []
@@ -380,6 +380,8 @@ def check_counting_by_class(res, lib, f, sp):
         if check_counting_by_filter(res, lib, f, classes):
             return
         raise KeyError("%s: neither a byte loop nor an iterator filter/count pipeline recognised" % f.npath)
+    # per named counter: how it steps on first bytes of scalars (exp 1) and on continuation bytes (exp 0)
+    behaviour = {}
     for prev, evs, cur in sorted(rule.steps, key=str):
         cl = [e[1] for e in evs if e[0] == 'class']
         if not cl:
@@ -393,25 +395,39 @@ def check_counting_by_class(res, lib, f, sp):
         else:
             continue         # bytes that never occur in well-formed text
         pd, cd = dict(prev), dict(cur)
-        for cn, mode in sp['counters'].items():
-            if mode != 'some' or cn not in pd or cn not in cd:
+        for cn in pd:
+            if cn not in cd:
                 continue
             a, b = int_singleton(pd[cn]), int_singleton(cd[cn])
             if a is None or b is None:
                 continue
-            good = b - a == exp
-            res.oblige("D|%s|class %s|%d" % (f.npath, fsm.cls_name(c), a), good, violation=None if good else dict(
-                rule='C17.counting', key="C17|counting|%s|%s" % (f.npath, fsm.cls_name(c)),
-                msg="%s: a byte in [%s] (%s of a scalar) changes the scalar counter `%s` by %d instead of %d" % (
-                    f.npath, fsm.cls_name(c), 'the first byte' if exp else 'a continuation byte', cn, b - a, exp)))
+            behaviour.setdefault(cn, {}).setdefault((exp, b - a), fsm.cls_name(c))
+    scalar_counters = [cn for cn, bs in behaviour.items() if set(bs) == {(1, 1), (0, 0)}]
+    if 'some' in sp['roles']:
+        good = bool(scalar_counters)
+        # report the most counter-like variable: the one with the fewest deviating steps
+        worst = None
+        if not good and behaviour:
+            cn = min(behaviour, key=lambda k: len(set(behaviour[k]) - {(1, 1), (0, 0)}))
+            dev = sorted(set(behaviour[cn]) - {(1, 1), (0, 0)})
+            exp_, d_ = dev[0] if dev else (1, 0)
+            worst = (cn, behaviour[cn].get((exp_, d_), '?'), exp_, d_)
+        res.oblige("D|%s|scalar-counter" % f.npath, good, sample="%s: scalar counter %s" % (f.npath, scalar_counters),
+                   violation=None if good else dict(
+                       rule='C17.counting', key="C17|counting|%s|%s" % (f.npath, worst[1] if worst else 'none'),
+                       msg=("%s: a byte in [%s] (%s of a scalar) is counted %s, expected %s" % (
+                           f.npath, worst[1], 'the first byte' if worst[2] else 'a continuation byte', [worst[3]], 'once' if worst[2] else 'not at all'))
+                       if worst else "%s: no variable of the loop counts scalars" % f.npath))
     res.samples.append("%s: judged per byte class (%d steps)" % (f.npath, len(rule.steps)))
 
 
 def check_counting(res, lib):
+    # roles a helper's loop must contain (found by behaviour, not by name): a `some` counter steps by one exactly when the
+    # accumulator reports a completed scalar, an `always` counter steps by one on every byte
     spec_ = {
-        'utils::char_count': dict(over='iter(text)', byte='b', counters={'count': 'some'}),
-        'utils::char_byte_index': dict(over='iter(text)', byte='b', counters={'current': 'some', 'byte_index': 'always'}),
-        'utils::common_prefix_len': dict(over='zip(iter(left),iter(right))', byte='b1', counters={'byte_counter': 'always'}),
+        'utils::char_count': dict(over='iter(%s)', byte='b', roles=('some',)),
+        'utils::char_byte_index': dict(over='iter(%s)', byte='b', roles=('some', 'always')),
+        'utils::common_prefix_len': dict(over='zip(iter(%s),iter(%s))', byte='b1', roles=('always',)),
     }
     for np_, sp in spec_.items():
         f = lib.fn(np_)
@@ -429,31 +445,41 @@ def check_counting(res, lib):
             continue
         if len(rule.steps) < 2:
             raise KeyError("%s: loop not recognised (%d steps)" % (np_, len(rule.steps)))
+        params = [a[1] for a in args if a[0] == 'sym']
+        want_over = sp['over'] % tuple(params[:sp['over'].count('%s')])
+        behaviour = {}      # named int local -> set of observed (outcome, delta)
         for prev, evs, cur in sorted(rule.steps, key=str):
             over = [e for e in evs if e[0] == 'over']
             pushes = [e for e in evs if e[0] == 'push']
-            good = len(over) == 1 and over[0][1] == sp['over']
+            good = len(over) == 1 and over[0][1] == want_over
             why = ''
             if not good:
-                why = "iterates over %s instead of %s" % (over, sp['over'])
+                why = "iterates over %s instead of %s" % (over, want_over)
             elif len(pushes) > 1 or (pushes and (pushes[0][1] != 'fresh-accum' or pushes[0][2] != sp['byte'])):
                 good = False
                 why = "does not feed exactly the current byte to the fresh accumulator once (%s)" % (pushes,)
             elif pushes:
                 outcome = pushes[0][3]
                 pd, cd = dict(prev), dict(cur)
-                for c, mode in sp['counters'].items():
-                    if c not in pd or c not in cd:
+                for c in pd:
+                    if c not in cd:
                         continue
                     a, b = int_singleton(pd[c]), int_singleton(cd[c])
                     if a is None or b is None:
-                        continue      # widened values: the relation is checked on the exact prefix 0..WIDEN_AT
-                    exp = a + (1 if (mode == 'always' or outcome == 'Some') else 0)
-                    if b != exp:
-                        good = False
-                        why = "counter `%s` goes from %d to %d when the accumulator reports %s (expected %d)" % (c, a, b, outcome, exp)
+                        continue      # widened values: the relation is observed on the exact prefix 0..WIDEN_AT
+                    behaviour.setdefault(c, set()).add((outcome, b - a))
             res.oblige("D|%s|%s|%s" % (np_, evs, cur), good, violation=None if good else dict(
                 rule='C17.counting', key="C17|counting|%s" % np_, msg="%s: %s" % (np_, why)))
+        found = {'some': [c for c, bs in behaviour.items() if bs == {('Some', 1), ('None', 0)}],
+                 'always': [c for c, bs in behaviour.items() if bs == {('Some', 1), ('None', 1)}]}
+        for role in sp['roles']:
+            good = bool(found[role])
+            res.oblige("D|%s|role %s" % (np_, role), good, sample="%s: `%s` counter is %s" % (np_, role, found[role]),
+                       violation=None if good else dict(
+                           rule='C17.counting', key="C17|counting|%s|role-%s" % (np_, role),
+                           msg="%s: no variable of the loop %s (observed per variable: %s)" % (
+                               np_, "steps by one exactly when the accumulator reports a completed scalar" if role == 'some'
+                               else "steps by one on every byte", {c: sorted(bs) for c, bs in behaviour.items()})))
         res.samples.append("%s: %d loop steps checked" % (np_, len(rule.steps)))
 
 
